@@ -1,6 +1,19 @@
 """Per-property manifest entries."""
 
+TRANSLATED = {
+    "C13": "pyramid.py position algebra and generators re-translated into Gallina on every run (harness/py2coq.py) and proved equal to the model",
+    "C08": "study.py StudyTiling re-translated into Gallina on every run (harness/py2coq.py) and proved equal to the model",
+    "C17": "pyramid.py PyramidIO tile naming re-translated into Gallina on every run (harness/py2coq.py) and proved equal to the model",
+}
+
+
 def chk(pid, text, note, technique, design_ref):
+    if pid in TRANSLATED:
+        technique += " + " + TRANSLATED[pid]
+        text += " Translation tie (DESIGN.md section 3.5b): " + TRANSLATED[pid] + "."
+    technique += " + workflow probes of the glue around the core (tests, not proofs; DESIGN.md section 3.5c)"
+    note += (" The glue around the modelled core (CLI, Builder, FitsTiler, option plumbing) is not modelled; it is exercised by "
+             "the workflow probes only (harness/workflows/), which are tests.")
     return dict(property_id=pid,
                 quick_cmd=f"bin/check {pid} --tier quick",
                 thorough_cmd=f"bin/check {pid} --tier thorough",
